@@ -6,7 +6,13 @@ export CARGO_NET_OFFLINE=true
 cargo build --offline --release --bins 2>&1 | tail -3
 cargo build --offline --profile dbgchk --bin c08_child --bin vcheck --bin c16_scopes 2>&1 | tail -3
 cargo build --offline --profile optchk --bin c08_child 2>&1 | tail -3
-# third build: x86-64-v3 CPU level (only where the CPU has it; the checks skip it otherwise)
-if f=$(grep -m1 '^flags' /proc/cpuinfo 2>/dev/null) && ok=1 && for x in avx2 bmi1 bmi2 fma abm movbe f16c; do case " $f " in *" $x "*) ;; *) ok=0;; esac; done && [ $ok = 1 ]; then
-  RUSTFLAGS="-C target-cpu=x86-64-v3" CARGO_TARGET_DIR="$PWD/target/cpuv3" cargo build --offline --release --bin vcheck --bin c16_scopes 2>&1 | tail -3
-fi
+# further builds: one per x86-64 micro-architecture level this CPU has (the checks skip the others)
+f=$(grep -m1 '^flags' /proc/cpuinfo 2>/dev/null || true)
+has() { for x in "$@"; do case " $f " in *" $x "*) ;; *) return 1;; esac; done; return 0; }
+V2="cx16 lahf_lm popcnt sse4_1 sse4_2 ssse3"; V3="$V2 avx avx2 bmi1 bmi2 fma abm movbe f16c xsave"; V4="$V3 avx512f avx512bw avx512cd avx512dq avx512vl"
+for lv in v2 v3 v4; do
+  case $lv in v2) need=$V2;; v3) need=$V3;; v4) need=$V4;; esac
+  if has $need; then
+    RUSTFLAGS="-C target-cpu=x86-64-$lv" CARGO_TARGET_DIR="$PWD/target/cpu$lv" cargo build --offline --release --bin vcheck --bin c16_scopes 2>&1 | tail -1
+  fi
+done
